@@ -311,6 +311,15 @@ func TestBuiltinsPropagate(t *testing.T) {
 }
 
 func judge(c *Case) (sig, detail string, reached bool) {
+	sig, detail = interp.Guard(func() (string, string) {
+		var s, d string
+		s, d, reached = judgeRaw(c)
+		return s, d
+	}, func() { vt.Discard("an evaluation of this case ran out of its budget (inconclusive)") })
+	return sig, detail, reached
+}
+
+func judgeRaw(c *Case) (sig, detail string, reached bool) {
 	if c.Call != "" {
 		return judgeCall(c)
 	}
